@@ -18,6 +18,10 @@ var (
 func verifStubTransform(lto, hto, lfrom, hfrom *[StateSize]uint) {
 	verifTCalls++
 	verifLastL, verifLastH = *lfrom, *hfrom
+	if !verifSymbolic() {
+		transform(lto, hto, lfrom, hfrom) // native replay: the real permutation
+		return
+	}
 	in := make([]uint, 0, 2*StateSize)
 	in = append(in, lfrom[:]...)
 	in = append(in, hfrom[:]...)
